@@ -1,7 +1,7 @@
 (* C01, simulation: the fragments are nested, and every program of the largest one is well-scoped
    (RefScope.well_scoped: the class property C01 quantifies over). *)
 From Coq Require Import List NArith ZArith Bool Arith Lia.
-From Cao Require Import CheckUtil CardAst Table RefSem RefScope StdlibGen C01SimDefs C01SimRef C01SimDefs2 C01SimDefs3.
+From Cao Require Import CheckUtil CardAst Table RefSem RefScope StdlibGen C01SimDefs C01SimRef C01SimDefs2 C01SimDefs3 C01SimDefs4.
 Import ListNotations.
 
 (* ------------------------------------------------------------------ nesting *)
@@ -29,6 +29,28 @@ Proof.
   destruct funs as [|[name f] [|]]; try discriminate. destruct imps; [|discriminate].
   intros H. apply andb_true_iff in H. destruct H as [H1 H2]. rewrite H1. cbn [andb].
   apply (forallb_impl _ _ _ stmt_f2_f3 H2).
+Qed.
+
+Lemma stmt_f2_4 c : stmt_f2 c = true -> stmt4 c = true.
+Proof.
+  induction c using CompilerWf.card_ind'; cbn [stmt_f2 stmt4]; auto; try discriminate.
+  - destruct op; try discriminate; intros H; apply andb_true_iff in H; destruct H as [H1 H2]; rewrite H1, (IHc2 H2); reflexivity.
+  - destruct op; try discriminate. intros H. apply andb_true_iff in H. destruct H as [H H3].
+    apply andb_true_iff in H. destruct H as [H1 H2]. rewrite H1, (IHc2 H2), (IHc3 H3). reflexivity.
+  - match goal with HF : Forall _ cards |- _ => induction HF as [|x r Hx _ IHr] end; cbn [forallb]; [auto|].
+    intros H. apply andb_true_iff in H. destruct H as [H1 H2]. rewrite (Hx H1), (IHr H2). reflexivity.
+Qed.
+Lemma top_f3_4 c : top_f3 c = true -> stmt4 c = true.
+Proof.
+  intros H. destruct c; try (apply stmt_f2_4; exact H). destruct op; try (apply stmt_f2_4; exact H).
+  cbn [top_f3] in H. cbn [stmt4]. apply andb_true_iff in H. destruct H as [H1 H2]. rewrite H1, (stmt_f2_4 _ H2). reflexivity.
+Qed.
+Lemma in_f3_f4 M : in_f3 M = true -> in_f4 M = true.
+Proof.
+  destruct M as [subs funs imps]. cbn [in_f3 in_f4]. destruct subs; [|discriminate].
+  destruct funs as [|[name f] [|]]; try discriminate. destruct imps; [|discriminate].
+  intros H. apply andb_true_iff in H. destruct H as [H1 H2]. rewrite H1. cbn [andb].
+  apply (forallb_impl _ _ _ top_f3_4 H2).
 Qed.
 
 (* ------------------------------------------------------------------ the scoping rules *)
@@ -60,10 +82,10 @@ Proof.
     apply negb_true_iff in Hdot. rewrite is_empty_conv in Hne. cbn [ws yields]. rewrite (var_base_no_dot _ Hdot), Hne. split; reflexivity.
 Qed.
 
-Lemma stmt_ws c : stmt_f2 c = true -> forall ret decl loc up, ws P fi ret decl loc up c = Some loc.
+Lemma stmt_ws c : stmt4 c = true -> forall ret decl loc up, ws P fi ret decl loc up c = Some loc.
 Proof.
-  induction c using CompilerWf.card_ind'; intros Hc; cbn [stmt_f2] in Hc; try discriminate Hc; intros ret decl loc up.
-  - (* IfTrue / IfFalse *)
+  induction c using CompilerWf.card_ind'; intros Hc; cbn [stmt4] in Hc; try discriminate Hc; intros ret decl loc up.
+  - (* IfTrue / IfFalse / While *)
     destruct op; try discriminate Hc; apply andb_true_iff in Hc; destruct Hc as [He Hb];
       destruct (expr_ws c1 He ret false loc up) as [A1 B1]; cbn [ws];
       rewrite A1, B1, (IHc2 Hb ret false loc up); reflexivity.
@@ -84,18 +106,10 @@ Proof.
     rewrite (Hx H1 ret decl loc up). apply IHr, H2.
 Qed.
 
-Lemma top_ws c : top_f3 c = true -> forall ret decl loc up, ws P fi ret decl loc up c = Some loc.
-Proof.
-  intros Hc. destruct c; try (apply stmt_ws; exact Hc). destruct op; try (apply stmt_ws; exact Hc).
-  cbn [top_f3] in Hc. apply andb_true_iff in Hc. destruct Hc as [He Hb]. intros ret decl loc up.
-  destruct (expr_ws c1 He ret false loc up) as [A1 B1]. cbn [ws].
-  rewrite A1, B1, (stmt_ws c2 Hb ret false loc up). reflexivity.
-Qed.
-
-Lemma cards_ws cards ret loc : forallb top_f3 cards = true -> ws_seq P fi ret loc cards = true.
+Lemma cards_ws cards ret loc : forallb stmt4 cards = true -> ws_seq P fi ret loc cards = true.
 Proof.
   induction cards as [|c r IH]; cbn [forallb ws_seq]; [reflexivity|]. intros H.
-  apply andb_true_iff in H. destruct H as [H1 H2]. rewrite (top_ws c H1 ret true loc []). apply IH, H2.
+  apply andb_true_iff in H. destruct H as [H1 H2]. rewrite (stmt_ws c H1 ret true loc []). apply IH, H2.
 Qed.
 End Ws.
 
@@ -113,9 +127,9 @@ Proof.
   destruct H as [H1 H2]. cbn [length seq combine forallb snd]. rewrite H1, (IH H2 (S k)). reflexivity.
 Qed.
 
-Theorem in_f3_well_scoped M : in_f3 M = true -> well_scoped M = true.
+Theorem in_f4_well_scoped M : in_f4 M = true -> well_scoped M = true.
 Proof.
-  intros HM. destruct M as [subs funs imps]. cbn [in_f3] in HM.
+  intros HM. destruct M as [subs funs imps]. cbn [in_f4] in HM.
   destruct subs; [|discriminate]. destruct funs as [|[name f] [|]]; try discriminate.
   destruct imps; [|discriminate].
   apply andb_true_iff in HM. destruct HM as [HM Hcards]. apply andb_true_iff in HM. destruct HM as [Hname Hargs].
@@ -131,6 +145,8 @@ Proof.
   apply cards_ws, Hcards.
 Qed.
 
+Corollary in_f3_well_scoped M : in_f3 M = true -> well_scoped M = true.
+Proof. intros H. apply in_f4_well_scoped, in_f3_f4, H. Qed.
 Corollary in_f1_well_scoped M : in_f1 M = true -> well_scoped M = true.
 Proof. intros H. apply in_f3_well_scoped, in_f2_f3, in_f1_f2, H. Qed.
 Corollary in_f2_well_scoped M : in_f2 M = true -> well_scoped M = true.
@@ -139,5 +155,6 @@ Proof. intros H. apply in_f3_well_scoped, in_f2_f3, H. Qed.
 Theorem fragments_well_scoped M :
   (in_f1 M = true -> in_f2 M = true) /\
   (in_f2 M = true -> in_f3 M = true) /\
-  (in_f3 M = true -> well_scoped M = true).
-Proof. split; [apply in_f1_f2|]. split; [apply in_f2_f3 | apply in_f3_well_scoped]. Qed.
+  (in_f3 M = true -> in_f4 M = true) /\
+  (in_f4 M = true -> well_scoped M = true).
+Proof. split; [apply in_f1_f2|]. split; [apply in_f2_f3|]. split; [apply in_f3_f4 | apply in_f4_well_scoped]. Qed.
